@@ -44,6 +44,7 @@ fn base() -> WorldCfg {
         data_before_template: 0,
         clock_jump: 0,
         heal: false,
+        recv_buf: 65535,
     }
 }
 
@@ -159,6 +160,7 @@ pub fn world_cfg(prop: &str, rng: &mut Rng) -> WorldCfg {
             c.truncate = *rng.pick(&[0u32, 50, 200]);
             c.coalesce = *rng.pick(&[0u32, 100, 400]);
             c.count_flowsets = rng.chance(1, 2);
+            c.recv_buf = *rng.pick(&[1500usize, 4096, 9000, 65535, 65535]);
             c.emissions = rng.urange(10, 120);
             if rng.chance(1, 3) {
                 for p in c.parsers.iter_mut() {
@@ -184,6 +186,7 @@ pub fn world_cfg(prop: &str, rng: &mut Rng) -> WorldCfg {
             c.coalesce = *rng.pick(&[0u32, 200, 500]);
             c.count_flowsets = rng.chance(2, 3);
             c.data_before_template = *rng.pick(&[0u32, 100]);
+            c.recv_buf = *rng.pick(&[1500usize, 4096, 9000, 65535, 65535]);
             c.emissions = rng.urange(10, 80);
             if prop == "C02" || rng.chance(1, 3) {
                 for p in c.parsers.iter_mut() {
